@@ -239,11 +239,17 @@ static void FuncSGN(TempResult* pResult, TempResult const* pArgs, unsigned ArgCn
 static void FuncINT(TempResult* pResult, TempResult const* pArgs, unsigned ArgCnt) {
     UNUSED(ArgCnt);
 
-    if (fabs(pArgs[0].Contents.Float) > IntTypeDefs[LargeSIntType].Max) {
+    /* the largest integer itself is not exactly representable as a float: compare with the
+       first value that does not fit any more (2^63 passed the old test and wrapped) */
+
+    Double Floor = floor(pArgs[0].Contents.Float);
+
+    if ((Floor >= (Double)IntTypeDefs[LargeSIntType].Max + 1.0)
+        || (Floor < (Double)IntTypeDefs[LargeSIntType].Min)) {
         as_tempres_set_none(pResult);
         WrError(ErrNum_OverRange);
     } else {
-        as_tempres_set_int(pResult, (LargeInt)floor(pArgs[0].Contents.Float));
+        as_tempres_set_int(pResult, (LargeInt)Floor);
     }
 }
 
@@ -367,7 +373,7 @@ static void FuncALD(TempResult* pResult, TempResult const* pArgs, unsigned ArgCn
 static void FuncSINH(TempResult* pResult, TempResult const* pArgs, unsigned ArgCnt) {
     UNUSED(ArgCnt);
 
-    if (pArgs[0].Contents.Float > 709) {
+    if (fabs(pArgs[0].Contents.Float) > 709) {
         as_tempres_set_none(pResult);
         WrError(ErrNum_FloatOverflow);
     } else {
@@ -378,7 +384,7 @@ static void FuncSINH(TempResult* pResult, TempResult const* pArgs, unsigned ArgC
 static void FuncCOSH(TempResult* pResult, TempResult const* pArgs, unsigned ArgCnt) {
     UNUSED(ArgCnt);
 
-    if (pArgs[0].Contents.Float > 709) {
+    if (fabs(pArgs[0].Contents.Float) > 709) {
         as_tempres_set_none(pResult);
         WrError(ErrNum_FloatOverflow);
     } else {
